@@ -202,19 +202,21 @@ func (in *objIndex) search(o Object, field string, operator string, value interf
 				fi = fi.Constrain(constrain)
 			}
 
+			// search results are copied so that they stay a snapshot
+			// of the index, which is modified in place by insert / delete
 			switch operator {
 			case "!=":
 				return fi.SearchNotEqual(iField), nil
 			case "=":
-				return fi.SearchEqual(iField), nil
+				return copyFields(fi.SearchEqual(iField)), nil
 			case ">":
-				return fi.SearchGreater(iField), nil
+				return copyFields(fi.SearchGreater(iField)), nil
 			case ">=":
-				return fi.SearchGreaterOrEqual(iField), nil
+				return copyFields(fi.SearchGreaterOrEqual(iField)), nil
 			case "<":
-				return fi.SearchLess(iField), nil
+				return copyFields(fi.SearchLess(iField)), nil
 			case "<=":
-				return fi.SearchLessOrEqual(iField), nil
+				return copyFields(fi.SearchLessOrEqual(iField)), nil
 			case "~=":
 				return fi.SearchByRegex(iField)
 			default:
@@ -225,6 +227,12 @@ func (in *objIndex) search(o Object, field string, operator string, value interf
 	} else {
 		return nil, fmt.Errorf("%w %s for object %T", ErrUnkownField, field, o)
 	}
+}
+
+func copyFields(fields []*indexedField) []*indexedField {
+	out := make([]*indexedField, len(fields))
+	copy(out, fields)
+	return out
 }
 
 func (in *objIndex) control() error {
